@@ -659,7 +659,7 @@ func (en Engine) converse(p0 *Plan, c *core.Ctx) (verdict *core.Verdict) {
 	case "yes", "no":
 		ui.Confirm = func(name, prompt, yes, no string) (bool, error) { return p.UI.Confirm == "yes", nil }
 	case "err":
-		ui.Confirm = func(name, prompt, yes, no string) (bool, error) { return false, errors.New("sim: no tty") }
+		ui.Confirm = func(name, prompt, yes, no string) (bool, error) { return true, errors.New("sim: no tty") }
 	}
 	if p.UI.WaitTimer {
 		ui.WaitTimer = func(name string) { atomic.AddInt32(&timerFired, 1) }
